@@ -348,6 +348,8 @@ func main() {
 				"Chmod of the directories views are rooted at to 0700 and (full alphabet) 0766/0755/0733, through the parent and through the view; " +
 				"re-creation of every view by 'V = receiver.Sub(spelling)' from the parent and from a view, spellings absolute clean, absolute with '.' and '..', and '.', '..', name relative to the receiver's working directory, " +
 				"followed by an independence probe: SetUMask, SetUser and Chdir applied to the new view and to its receiver, User/UMask/Getwd of all other actors compared; " +
+				"every creating call of the API besides Mkdir, MkdirAll, WriteFile, OpenFile(O_CREATE|O_EXCL), Rename and Link: Symlink(plain relative target 'g', new name) and Create(new name) on new names in the actor's root and below it (core alphabet: Symlink on '/sl' through both views; full alphabet: '/sl', '/q/sl', 'sl', '/p/sl' through every view and, through the parent, inside every directory a view is rooted at), " +
+				"full alphabet also CreateTemp(dir,'t*') and MkdirTemp(dir,'t*') through every view on its root and a directory below it, each followed at once by Remove of the returned name through the same actor (the name is random), the returned name compared with its digits masked as a path of the actor's namespace; " +
 				"full alphabet: the start state holds a directory that NEVER had an entry (" + freshDir + ") with a view V3 on it - creations, removals, Chdir and reads through V3 on '/', '/new', '/new/sub', 'new', Rename/Link inside it and to '/../new', chmod of its root to the modes above, SetUser/SetUMask, 'V3 = parent.Sub' spelled absolute and relative; " +
 				"the parent removes (Remove, RemoveAll, directly or through RemoveAll of the directory above), renames, chmods (0700) and populates that directory, the view of '/' removes and chmods it), each executed on the real MemFS and in lock-step on a twin parent with prefixed paths; " +
 				"systems Windows:<variant>: the same alphabet spelled for Windows-typed file systems (volume C:, backslashes; the parent holds a second volume D: with directory v and file v\\w) plus the operands that exist there only, as operands of every call, of Rename/Link and of Sub, through parent, view, nested view and the view of the root: " +
@@ -373,7 +375,9 @@ func main() {
 			"state key = injected node-graph dump of the parent (VerifDump: names, types, modes, owners, link classes, bytes) + User/UMask/Getwd of every actor + chdir-done flag + directory and location of every view root; a Sub step always rebuilds the instance",
 			"the directory " + freshDir + " of the start state is created by one Mkdir and nothing is ever created in it before the history starts (the probes run on the views at creation only read): every other directory a view is rooted at contains an entry or did once. The state key does not tell a directory that never had an entry from one that was emptied again (no public call does); the search keeps the shortest history of a state, so the start state and the states reached by removing, renaming or chmod-ing that directory are explored with the never populated one. The core alphabet (one level deeper) has no operand in that directory; in the users@/ systems V3 acts as u1 with umask 077",
 			"a call that succeeds through a view whose root node is unreachable from the parent's root and is not read-only changes something no dump shows: the instance is rebuilt after it, so that the next call tried from the same state does not meet what it left behind",
-			"symlinks are outside the property and not in the alphabet",
+			"paths that resolve through a symbolic link are outside the property: the links the Symlink calls of the alphabet make have a plain relative target, sit on names ('sl') that are no operand of any other call, and are read with Lstat/Readlink only (never followed) by the visibility check; the CALL Symlink is judged like every other creating call (outcome, error paths - New after stripping dir, Old verbatim -, equal trees, visibility, nothing outside changes)",
+			"the rule 'nothing is created through a view whose root node is unreachable' covers every call that can make an entry: Mkdir, MkdirAll, WriteFile, OpenFile(O_CREATE), Create, Symlink, CreateTemp, MkdirTemp, and Link / Rename on a destination that did not exist; for MkdirAll, WriteFile, Create, OpenFile, Link, Rename a success on a name that existed before (Lstat through the view) creates nothing and is accepted",
+			"CreateTemp / MkdirTemp draw a random name: the step is the composite 'create, then Remove the returned name through the same actor' so that trees and state keys are deterministic; a failing Remove shows in the compared value (cleanup=<errno>); digits are masked in the paths these two calls return or carry in errors",
 			"Windows-typed systems are the library's own emulation (memfs.Options.OSType = avfs.OsWindows, build tag avfs_setostype) on a Linux host with a Linux-typed MemIdm (users root, u1, u2 as on the Linux type); the harness keeps its model (working directories, view roots, dump lines, twin paths) in slash form on the default volume for both OS types and translates at the call boundary; the Linux-typed systems are untouched by this (same alphabet, same counts)",
 			"Windows-typed: a view path with the default volume (`C:\\x`) corresponds to the parent path dir+`\\x`; the views of the alphabet are rooted on the default volume and the parent's working directory stays there (no Chdir of the parent to D:), because the statement does not say what volume name a view rooted on another volume shows",
 			"Windows-typed: an operand that names another volume (`D:\\...`) has no counterpart below dir. Judged: the call succeeds or fails as the twin parent's call on the same path of a volume that does not exist (`Q:\\...`); WHICH error is not compared, and a panic the parent shares there (MkdirAll) is the parent's defect, not the view's; the trees stay equal, nothing outside dir changes, the view's own state does not move; a read-only call that answers what the parent answers for that very path is reported as outside-read. Also judged through a view whose root was renamed or removed as far as 'nothing outside changes' goes",
